@@ -380,12 +380,14 @@ def inject_seg(entry, gseg, kind):
             raise gen.Ungeneratable('segment would be empty')
         st, pos = set_pos(d, i)
         return d, {'level': 'ele', 'code': '10' if t == 'E' else '2', 'seg_id': gseg.id, 'pos': pos, 'ele': idx, 'sub': None, 'value': None}, False
-    if kind == 'unknown-id':
+    if kind in ('unknown-id', 'unknown-id-malformed'):
+        # an identifier no map knows; the malformed one (four characters) is also refused by the reader itself
+        sid = 'ZZZ' if kind == 'unknown-id' else 'ZZZZ'
         d, i = carrier(entry, gseg)
-        d.segs.insert(i + 1, ['ZZZ', 'A']); d.nodes.insert(i + 1, None)
+        d.segs.insert(i + 1, [sid, 'A']); d.nodes.insert(i + 1, None)
         fix_counts(d)
         st, pos = set_pos(d, i + 1)
-        return d, {'level': 'seg', 'code': '1', 'seg_id': 'ZZZ', 'pos': pos}, False
+        return d, {'level': 'seg', 'code': '1', 'seg_id': sid, 'pos': pos}, False
     if kind == 'missing-required-segment':
         d, i = carrier(entry, gseg)
         lp = d.lpaths[i]
@@ -557,6 +559,7 @@ def _cases_raw(root, thorough, seen):
             seen.add(sig)
             yield {'what': 'seg', '_node': seg, 'path': seg.path, 'kind': 'too-many-elements'}
             yield {'what': 'seg', '_node': seg, 'path': seg.path, 'kind': 'unknown-id'}
+            yield {'what': 'seg', '_node': seg, 'path': seg.path, 'kind': 'unknown-id-malformed'}
             for t in seg.syntax:
                 yield {'what': 'seg', '_node': seg, 'path': seg.path, 'kind': 'syntax:' + t}
             if seg.usage == 'R' and not first_in_loop:
@@ -644,7 +647,7 @@ def run(R):
     R.pmap(work, shards)
     R.bounds = {'maps': len(ents), 'injections': total,
                 'catalogue': ['too-long', 'too-long-punctuated (AN)', 'too-long-signed (R)', 'too-short', 'wrong-class', 'impossible-date (month)', 'impossible-date-day', 'impossible-time (hour)', 'impossible-time-minute', 'impossible-time-second', 'outside-code-list', 'missing-required',
-                              'not-used-filled', 'too-many-elements', 'syntax:<note>', 'unknown-id', 'missing-required-segment', 'beyond-max-use',
+                              'not-used-filled', 'too-many-elements', 'syntax:<note>', 'unknown-id', 'unknown-id-malformed', 'missing-required-segment', 'beyond-max-use',
                               'not-used-segment', 'beyond-repeat (loops)', 'missing-required-loop'],
                 'targets': 'every node x every applicable kind' if R.thorough else 'one node per definition signature per map x every applicable kind'}
     R.assumptions = ['carrier = the d<=1 conformant document containing the target, in a two-set interchange whose other set is minimal',
